@@ -31,6 +31,18 @@ fn judge(acc: &mut Acc, what: &str, got: &Call<Vec<u8>>, want_err: Option<&str>,
     }
 }
 
+mod big_types {
+    use desert::BinaryCodec;
+
+    /// an evolved record whose added field can hold more than 2^31 bytes although each byte vector in it is smaller
+    #[derive(BinaryCodec)]
+    #[evolution(FieldAdded("b", Vec::new()))]
+    pub struct BigChunk {
+        pub a: u8,
+        pub b: Vec<Vec<u8>>,
+    }
+}
+
 struct Exact {
     n: usize,
 }
@@ -100,6 +112,13 @@ pub fn c17(ctx: &mut Ctx, acc: &mut Acc) -> i32 {
             drop(big);
             let s = String::from_utf8(vec![b'a'; (1usize << 31) + 1]).unwrap();
             judge(acc, "String_over_2GiB", &ser(&s), Some("LengthTooLarge"), J::obj().with("len", J::u(s.len() as u64)));
+            drop(s);
+            // a chunk of an evolved record that exceeds the format's 31-bit chunk size while every length inside it fits
+            if !cfg!(debug_assertions) {
+                let part = 800usize << 20;
+                let big = big_types::BigChunk { a: 1, b: vec![vec![0u8; part], vec![0u8; part], vec![0u8; part]] };
+                judge(acc, "chunk_over_2GiB", &ser(&big), Some("LengthTooLarge"), J::obj().with("chunk_bytes", J::u(3 * part as u64)));
+            }
         }
         // (c) evolution metadata that references an unknown field
         if let Some(s) = ctx.reg.get("BadEvolution") {
